@@ -73,7 +73,7 @@ type devirtRecv struct {
 }
 
 func (d devirtRecv) Type() types.Type { return d.ty }
-func (d devirtRecv) Name() string      { return d.Value.Name() + "_conc" }
+func (d devirtRecv) Name() string     { return d.Value.Name() + "_conc" }
 
 func (f *Frame) execCallCommon(ins ssa.Instruction, c *ssa.CallCommon, st *State) Val {
 	u := f.u
@@ -451,8 +451,10 @@ func (f *Frame) applyContract(spec *UnitSpec, name string, c *ssa.CallCommon, si
 
 // resolveModClasses maps a modifies item to heap class names known to the unit.
 // modMatchers maps a modifies/preserves item to class matchers.
-//   map[K]V -> the three map classes; []T -> Elem.T; Type.field / pkg.Type.field / Type.* ; raw class names (F. Elem. Map* Cell. G.)
+//
+//	map[K]V -> the three map classes; []T -> Elem.T; Type.field / pkg.Type.field / Type.* ; raw class names (F. Elem. Map* Cell. G.)
 func modMatchers(item, pkg string) []matcher {
+	item = canonAliases(item)
 	if strings.HasPrefix(item, "map[") {
 		if end := strings.Index(item, "]"); end > 0 {
 			k, v := sanitize(item[4:end]), sanitize(item[end+1:])
@@ -742,7 +744,23 @@ func (f *Frame) execAppend(c *ssa.CallCommon, args []Val, st *State) Val {
 			}
 			srt := u.classSort[cls]
 			ea := u.heapGet(st, cls, srt)
-			u.heapSet(st, cls, u.defs.Define("H_"+cls, Store(ea, resArr, u.defs.Fresh("app_"+cls, arrayValSort(srt)))))
+			fresh := u.defs.Fresh("app_"+cls, arrayValSort(srt))
+			// a decoded field that lies entirely inside the old elements keeps its value: at the same position of the
+			// old array when the append is in place, at the position relative to the old offset when it reallocates
+			if w, okw := map[string]int64{"Enc.BE16": 2, "Enc.BE32": 4, "Enc.BE64": 8, "Enc.LE32": 4, "Enc.LE64": 8}[cls]; okw {
+				u.qctr++
+				qp := fmt.Sprintf("q%d_p", u.qctr)
+				oldV := Select(ea, oldArrID)
+				u.assume(st, Term{fmt.Sprintf("(forall ((%s Int)) (! (and "+
+					"(=> (and %s (<= %s %s) (<= (+ %s %d) %s)) (= (select %s %s) (select %s %s))) "+
+					"(=> (and (not %s) (<= 0 %s) (<= (+ %s %d) %s)) (= (select %s %s) (select %s (+ %s %s))))"+
+					") :pattern ((select %s %s))))",
+					qp,
+					inPlace.S, oldOff.S, qp, qp, w, lo.S, fresh.S, qp, oldV.S, qp,
+					inPlace.S, qp, qp, w, oldLen.S, fresh.S, qp, oldV.S, oldOff.S, qp,
+					fresh.S, qp), SBool})
+			}
+			u.heapSet(st, cls, u.defs.Define("H_"+cls, Store(ea, resArr, fresh)))
 		}
 	}
 	capF := u.defs.Fresh("appcap", SInt)
